@@ -40,51 +40,54 @@ theorem key_rule (fmt : Fmt) (tg : Tags) (h : Tags.lookup tg fmt.libTag ≠ some
 
 /-! ### leaf-level field types: the fallthrough case of `passTy` -/
 
-/-- a field type the Transformer does not recurse into (and which is not `[]time.Time`) -/
+/-- a field type the Transformer does not recurse into (`[]time.Time` included, since the repair of D34) -/
 def isLeaf : Ty → Bool
   | .struct _ => false
   | .ptr (.struct _) => false
   | .slice (.struct _) => false
-  | .slice (.text .time) => false
   | _ => true
 
 theorem isLeaf_cases (t : Ty) :
     (∃ fs, t = .struct fs) ∨ (∃ fs, t = .ptr (.struct fs)) ∨ (∃ fs, t = .slice (.struct fs)) ∨
-    t = .slice (.text .time) ∨ isLeaf t = true := by
+    isLeaf t = true := by
   cases t with
   | struct fs => exact .inl ⟨fs, rfl⟩
   | ptr e => cases e <;> simp [isLeaf]
-  | slice e =>
-    cases e with
-    | text k => cases k <;> simp [isLeaf]
-    | _ => simp [isLeaf]
+  | slice e => cases e <;> simp [isLeaf]
   | _ => simp [isLeaf]
 
 theorem isLeaf_not (t : Ty) (h : isLeaf t = true) :
     (∀ fs, t = .struct fs → False) ∧ (∀ fs, t = .ptr (.struct fs) → False) ∧
-    (∀ fs, t = .slice (.struct fs) → False) ∧ (t = .slice (.text .time) → False) := by
-  refine ⟨?_, ?_, ?_, ?_⟩ <;> (intros; subst_vars; simp [isLeaf] at h)
+    (∀ fs, t = .slice (.struct fs) → False) := by
+  refine ⟨?_, ?_, ?_⟩ <;> (intros; subst_vars; simp [isLeaf] at h)
 
 theorem passTy_leaf (P : Pass) (t : Ty) (h : isLeaf t = true) : passTy P t = P.leaf t := by
-  obtain ⟨h1, h2, h3, h4⟩ := isLeaf_not t h
-  exact passTy.eq_5 P t h1 h2 h3 h4
+  obtain ⟨h1, h2, h3⟩ := isLeaf_not t h
+  by_cases h4 : t = .slice (.text .time)
+  · subst h4; simp [passTy, Facts.textSkipAfterStrip]
+  · exact passTy.eq_5 P t h1 h2 h3 h4
+
+theorem flatTy_leaf (t : Ty) (h : isLeaf t = true) : flatTy t = t := by
+  obtain ⟨h1, h2, h3⟩ := isLeaf_not t h
+  by_cases h4 : t = .slice (.text .time)
+  · subst h4; simp [flatTy, Facts.textSkipAfterStrip]
+  · exact flatTy.eq_5 t h1 h2 h3 h4
 
 theorem reachTy_leaf (fmt : Fmt) (t : Ty) (h : isLeaf t = true) (hr : reachTy fmt t = true) :
     t = .set ∨ plainTy t = true := by
-  obtain ⟨h1, h2, h3, h4⟩ := isLeaf_not t h
+  obtain ⟨h1, h2, h3⟩ := isLeaf_not t h
   by_cases h5 : t = .set
   · exact .inl h5
   · right
-    rw [reachTy.eq_6 fmt t h1 h2 h3 h4 h5] at hr
+    rw [reachTy.eq_5 fmt t h1 h2 h3 h5] at hr
     exact hr
 
 /-- induction over types following the Transformer's recursion: struct, pointer to struct, slice of struct,
-    `[]time.Time`, and the leaf-level field types -/
+    and the leaf-level field types -/
 theorem ty_ind {motive : Ty → Prop} {motiveF : Fields → Prop}
     (struct : ∀ fs, motiveF fs → motive (.struct fs))
     (ptrStruct : ∀ fs, motiveF fs → motive (.ptr (.struct fs)))
     (sliceStruct : ∀ fs, motiveF fs → motive (.slice (.struct fs)))
-    (sliceTime : motive (.slice (.text .time)))
     (leaf : ∀ t, isLeaf t = true → motive t)
     (nil : motiveF .nil)
     (cons : ∀ n a tg t r, motive t → motiveF r → motiveF (.cons n a tg t r)) :
@@ -99,20 +102,18 @@ theorem ty_ind {motive : Ty → Prop} {motiveF : Fields → Prop}
     · intro k; exact ⟨leaf _ rfl, fun fs h => by cases h⟩
     · intro e ih
       refine ⟨?_, fun fs h => by cases h⟩
-      rcases isLeaf_cases (.slice e) with ⟨fs, h⟩ | ⟨fs, h⟩ | ⟨fs, h⟩ | h | h
+      rcases isLeaf_cases (.slice e) with ⟨fs, h⟩ | ⟨fs, h⟩ | ⟨fs, h⟩ | h
       · cases h
       · cases h
       · cases h; exact sliceStruct fs (ih.2 fs rfl)
-      · cases h; exact sliceTime
       · exact leaf _ h
     · intro e _; exact ⟨leaf _ rfl, fun fs h => by cases h⟩
     · exact ⟨leaf _ rfl, fun fs h => by cases h⟩
     · intro e ih
       refine ⟨?_, fun fs h => by cases h⟩
-      rcases isLeaf_cases (.ptr e) with ⟨fs, h⟩ | ⟨fs, h⟩ | ⟨fs, h⟩ | h | h
+      rcases isLeaf_cases (.ptr e) with ⟨fs, h⟩ | ⟨fs, h⟩ | ⟨fs, h⟩ | h
       · cases h
       · cases h; exact ptrStruct fs (ih.2 fs rfl)
-      · cases h
       · cases h
       · exact leaf _ h
     · intro fs ih; exact ⟨struct fs ih, fun fs' h => by cases h; exact ih⟩
@@ -145,16 +146,13 @@ theorem plain_subTy : ∀ t, plainTy t = true → plainTy (subTy t) = true := by
 theorem isLeaf_subTy (t : Ty) (h : isLeaf t = true) : isLeaf (subTy t) = true := by
   cases t with
   | ptr e => cases e <;> simp_all [isLeaf, subTy]
-  | slice e =>
-    cases e with
-    | text k => cases k <;> simp_all [isLeaf, subTy]
-    | _ => simp_all [isLeaf, subTy]
+  | slice e => cases e <;> simp_all [isLeaf, subTy]
   | _ => simp_all [isLeaf, subTy]
 
 theorem reachTy_plain (fmt : Fmt) (t : Ty) (h : isLeaf t = true) (hp : plainTy t = true) :
     reachTy fmt t = true := by
-  obtain ⟨h1, h2, h3, h4⟩ := isLeaf_not t h
-  rw [reachTy.eq_6 fmt t h1 h2 h3 h4 (by intro h5; subst h5; simp [plainTy] at hp)]
+  obtain ⟨h1, h2, h3⟩ := isLeaf_not t h
+  rw [reachTy.eq_5 fmt t h1 h2 h3 (by intro h5; subst h5; simp [plainTy] at hp)]
   exact hp
 
 /-! ### one Transformer pass seen through the keyed view -/
@@ -168,7 +166,6 @@ theorem kv_pass (fmt : Fmt) (P : Pass) (keyf keyf' : Tags → String) (sub ss su
   · intro fs ih h; simp only [reachTy] at h; simp [passTy, kvTy, ih h]
   · intro fs ih h; simp only [reachTy] at h; simp [passTy, kvTy, ih h]
   · intro fs ih h; simp only [reachTy] at h; simp [passTy, kvTy, ih h]
-  · intro h; simp [reachTy] at h
   · intro t hl' h; rw [passTy_leaf P t hl']; exact hl t hl' h
   · intro _; simp [passFields, kvFields]
   · intro n a tg t r iht ihr h
@@ -183,7 +180,6 @@ theorem reach_pass (fmt : Fmt) (P : Pass) (hk : ∀ tg, P.tags tg = tg)
   · intro fs ih h; simp only [reachTy] at h; simp [passTy, reachTy, ih h]
   · intro fs ih h; simp only [reachTy] at h; simp [passTy, reachTy, ih h]
   · intro fs ih h; simp only [reachTy] at h; simp [passTy, reachTy, ih h]
-  · intro h; simp [reachTy] at h
   · intro t hl' h; rw [passTy_leaf P t hl']; exact hl t hl' h
   · intro _; simp [passFields, reachFields]
   · intro n a tg t r iht ihr h
@@ -284,29 +280,28 @@ theorem flat_idle :
   · intro fs ih h; simp only [noAnon] at h; simp [flatTy, passTy, ih h]
   · intro fs ih h; simp only [noAnon] at h; simp [flatTy, passTy, ih h]
   · intro fs ih h; simp only [noAnon] at h; simp [flatTy, passTy, ih h]
-  · intro _; simp [flatTy, passTy, Pass.idle]
   · intro t hl _
-    obtain ⟨h1, h2, h3, h4⟩ := isLeaf_not t hl
-    rw [passTy_leaf _ t hl, flatTy.eq_5 t h1 h2 h3 h4]; rfl
+    rw [passTy_leaf _ t hl, flatTy_leaf t hl]; rfl
   · intro _; simp [flatFields, passFields]
   · intro n a tg t r iht ihr h
     simp only [noAnonFields, Bool.and_eq_true, Bool.not_eq_true'] at h
     obtain ⟨⟨rfl, h2⟩, h3⟩ := h
     simp [flatFields, passFields, iht h2, ihr h3, Pass.idle]
 
-theorem idle_id (fmt : Fmt) :
-    (∀ t, reachTy fmt t = true → passTy Pass.idle t = t) ∧
-    (∀ fs, reachFields fmt fs = true → passFields Pass.idle fs = fs) := by
+theorem idle_id :
+    (∀ t, passTy Pass.idle t = t) ∧
+    (∀ fs, passFields Pass.idle fs = fs) := by
   apply ty_ind
-  · intro fs ih h; simp only [reachTy] at h; simp [passTy, ih h]
-  · intro fs ih h; simp only [reachTy] at h; simp [passTy, ih h]
-  · intro fs ih h; simp only [reachTy] at h; simp [passTy, ih h]
-  · intro h; simp [reachTy] at h
-  · intro t hl _; rw [passTy_leaf _ t hl]; rfl
-  · intro _; simp [passFields]
-  · intro n a tg t r iht ihr h
-    simp only [reachFields, Bool.and_eq_true] at h
-    simp only [passFields, iht h.1.2, ihr h.2]; rfl
+  · intro fs ih; simp [passTy, ih]
+  · intro fs ih; simp [passTy, ih]
+  · intro fs ih; simp [passTy, ih]
+  · intro t hl; rw [passTy_leaf _ t hl]; rfl
+  · simp [passFields]
+  · intro n a tg t r iht ihr
+    simp only [passFields, iht, ihr]; rfl
+
+theorem flatten_noop (T : Ty) (h : noAnon T = true) : flatTy T = T := by
+  rw [flat_idle.1 T h, idle_id.1 T]
 
 
 /-! ### outcome inversion, `mapO` -/
@@ -849,12 +844,12 @@ theorem strsOf_map : ∀ (ks : List String), strsOf (ks.map Val.str) = some ks :
   | cons k r ih => simp [strsOf, ih]
 
 theorem fwdSet_leaf (t : Ty) (x : Val) (h : isLeaf t = true) (hs : t ≠ .set) : fwdSet t x = x := by
-  obtain ⟨h1, h2, h3, _⟩ := isLeaf_not t h
+  obtain ⟨h1, h2, h3⟩ := isLeaf_not t h
   exact fwdSet.eq_5 t x hs (fun fs _ e _ => h1 fs e) (fun fs _ e _ => h2 fs e) (fun fs _ e _ => h3 fs e)
 
 theorem unpassTy_leaf (leaf : Ty → Val → Outcome Val) (t : Ty) (x : Val) (h : isLeaf t = true) :
     unpassTy leaf t x = leaf t x := by
-  obtain ⟨h1, h2, h3, _⟩ := isLeaf_not t h
+  obtain ⟨h1, h2, h3⟩ := isLeaf_not t h
   exact unpassTy.eq_9 leaf t x h1 h2 h3 (fun fs _ e _ => h1 fs e) (fun fs e _ => h2 fs e)
     (fun fs _ e _ => h2 fs e) (fun fs e _ => h3 fs e) (fun fs _ e _ => h3 fs e)
 
@@ -888,8 +883,6 @@ theorem set_roundtrip :
         cases v <;> simp at this
         simp [ih _ this]
     | _ => simp [setsOK] at h
-  · intro x _
-    simp [fwdSet, unpassTy, unSetLeaf]
   · intro t hl x h
     by_cases hs : t = .set
     · subst hs
@@ -1047,7 +1040,6 @@ theorem unwrap_shape (fmt : Fmt) (keyf : Tags → String) (sub : Bool) :
       obtain ⟨ws, hws, hs⟩ := ih hr _ this
       exact ⟨.struct ws, by simp [hws], by simp [shapeK, hs]⟩
     | _ => simp [kvTy, shapeK] at hv
-  · intro hr; simp [reachTy] at hr
   · intro t hl hr v hv
     rw [unpassTy_leaf _ t v hl]
     rcases reachTy_leaf fmt t hl hr with rfl | hp
@@ -1227,7 +1219,6 @@ theorem ty_ind2 {motive : Ty → Prop} {motiveF : Fields → Prop}
     (struct : ∀ fs, motiveF fs → motive (.struct fs))
     (ptrStruct : ∀ fs, motiveF fs → motive (.ptr (.struct fs)))
     (sliceStruct : ∀ fs, motiveF fs → motive (.slice (.struct fs)))
-    (sliceTime : motive (.slice (.text .time)))
     (leaf : ∀ t, isLeaf t = true → motive t)
     (nil : motiveF .nil)
     (cons : ∀ n a tg t r, motive t → (∀ ifs, t = .struct ifs → motiveF ifs) →
@@ -1239,7 +1230,6 @@ theorem ty_ind2 {motive : Ty → Prop} {motiveF : Fields → Prop}
     (fun fs ih => ⟨struct fs ih, fun ifs h => (by cases h; exact ih), fun ifs h => (by cases h)⟩)
     (fun fs ih => ⟨ptrStruct fs ih, fun ifs h => (by cases h), fun ifs h => (by cases h; exact ih)⟩)
     (fun fs ih => ⟨sliceStruct fs ih, fun ifs h => (by cases h), fun ifs h => (by cases h)⟩)
-    ⟨sliceTime, fun ifs h => (by cases h), fun ifs h => (by cases h)⟩
     (fun t hl => ⟨leaf t hl, fun ifs h => (by subst h; simp [isLeaf] at hl), fun ifs h => (by subst h; simp [isLeaf] at hl)⟩)
     nil
     (fun n a tg t r iht ihr => cons n a tg t r iht.1 iht.2.1 iht.2.2 ihr)
@@ -1272,11 +1262,11 @@ theorem embeds_not (a : Bool) (t : Ty) (h : embeds a t = false) :
   refine ⟨?_, ?_⟩ <;> (intro ifs ha ht; subst ha; subst ht; simp [embeds] at h)
 
 theorem flatVal_leaf (t : Ty) (x : Val) (h : isLeaf t = true) : flatVal t x = x := by
-  obtain ⟨h1, h2, h3, _⟩ := isLeaf_not t h
+  obtain ⟨h1, h2, h3⟩ := isLeaf_not t h
   exact flatVal.eq_4 t x (fun fs _ e _ => h1 fs e) (fun fs _ e _ => h2 fs e) (fun fs _ e _ => h3 fs e)
 
 theorem unflatTy_leaf (t : Ty) (x : Val) (h : isLeaf t = true) : unflatTy t x = .ok x := by
-  obtain ⟨h1, h2, h3, _⟩ := isLeaf_not t h
+  obtain ⟨h1, h2, h3⟩ := isLeaf_not t h
   exact unflatTy.eq_9 t x h1 h2 h3 (fun fs _ e _ => h1 fs e) (fun fs e _ => h2 fs e)
     (fun fs _ e _ => h2 fs e) (fun fs e _ => h3 fs e) (fun fs _ e _ => h3 fs e)
 
@@ -1349,7 +1339,6 @@ theorem flat_roundtrip :
         cases v <;> simp at this
         simp [ih.1 _ he this]
     | _ => simp [flatOKVal] at h
-  · intro x _ _; simp [flatVal, unflatTy]
   · intro t hl x _ _; rw [flatVal_leaf t x hl, unflatTy_leaf t x hl]
   · refine ⟨?_, ?_⟩
     · intro vs _ h; cases vs <;> simp [flatOKVals] at h; simp [unflatFields]
@@ -1446,11 +1435,10 @@ theorem tagKeys_pass (fmt : Fmt) (P : Pass) (keyf keyf' : Tags → String)
 
 theorem embeds_pass (P : Pass) (hleaf : ∀ t, P.leaf t = t) (a : Bool) (t : Ty) (h : embeds a t = false) :
     embeds a (passTy P t) = false := by
-  rcases isLeaf_cases t with ⟨fs, rfl⟩ | ⟨fs, rfl⟩ | ⟨fs, rfl⟩ | rfl | hl
+  rcases isLeaf_cases t with ⟨fs, rfl⟩ | ⟨fs, rfl⟩ | ⟨fs, rfl⟩ | hl
   · simpa [passTy, embeds] using h
   · simpa [passTy, embeds] using h
   · simp [passTy, embeds]
-  · simp [passTy, embeds, Facts.textSkipBeforeStrip]
   · rw [passTy_leaf P t hl, hleaf]; exact h
 
 theorem spliceKeys_pass (fmt : Fmt) (P : Pass) (keyf keyf' : Tags → String)
